@@ -156,7 +156,15 @@ func c18Accumulate(c *Ctx, fd *ast.FuncDecl, name string, op token.Token, ident 
 	if intFam {
 		wantT = types.Typ[types.Int]
 	}
-	c.Ob("C18.R2", name+"/domain", fd.Pos()).Check(types.Identical(acc.Type(), wantT), "accumulates in "+shortType(wantT), "accumulates in "+shortType(acc.Type())+", not in "+shortType(wantT)+" (integers wrap / fractions are lost)")
+	accType := acc.Type()
+	if _, isTP := accType.(*types.TypeParam); isTP {
+		// the accumulator of an inlined generic helper: it is returned as it is (no conversion in between), so its type at this
+		// instance is the aggregate's own result type
+		if res := c.FuncObj(fd).Type().(*types.Signature).Results(); res.Len() == 1 {
+			accType = res.At(0).Type()
+		}
+	}
+	c.Ob("C18.R2", name+"/domain", fd.Pos()).Check(types.Identical(accType, wantT), "accumulates in "+shortType(wantT), "accumulates in "+shortType(accType)+", not in "+shortType(wantT)+" (integers wrap / fractions are lost)")
 	// identity
 	iob := c.Ob("C18.R1", name+"/identity", fd.Pos())
 	init, has := loop.Init[acc]
